@@ -2,11 +2,12 @@
 """Add the violations recorded in replays/<ID>-*.json to findings/known_findings.json.
 Run by hand, after each listed violation has been confirmed against the real code as a genuine
 defect of swimos/swim-rust (never at check time). usage: register_known.py <ID> [substring-filter]"""
-import glob, json, os, sys
+import fcntl, glob, json, os, sys
 root = os.path.dirname(os.path.dirname(os.path.abspath(__file__)))
 pid = sys.argv[1]
 flt = sys.argv[2] if len(sys.argv) > 2 else ""
 path = os.path.join(root, "findings", "known_findings.json")
+_lock = open(path + ".lock", "w"); fcntl.flock(_lock, fcntl.LOCK_EX)
 kf = json.load(open(path)) if os.path.exists(path) else {"known": [], "fixed": []}
 have = {(k["property"], k["signature"]) for k in kf["known"]}
 n = 0
